@@ -82,6 +82,10 @@ Print W.
 """
 
 FAMILIES = [
+    # escapes at the edges of a literal (a trailing escaped quote; an escaped backslash next to an escaped quote: two different texts)
+    ['"\\""', "/[a-z]+/", '"<"'],
+    ['"\\\\"', '"\\""'],
+    ['"a\\""', '"\\"a"', '"a"'],
     # disjoint
     ['"if"', '"then"', "/[0-9]+/"],
     # keyword vs identifier
@@ -125,7 +129,9 @@ FAMILIES = [
 
 RAND_PATTERNS = ["/[a-z]+/", "/[a-c]+/", "/[b-d]+/", "/[0-9]+/", "/[0-9a-f]+/", "/a*b/", "/ab*/", "/(ab)+/", "/a|b|ab/", "/[a-z][a-z0-9]*/",
                  "/x?y/", "/a*/", "/[0-9]*/", "/(ab)?/", "/if|else/", "/if/", "/ab/", "/a/", "/0/", "/abc/", "/[^a]b/", "/\\d+/", "/\\w+/", "/a{2,3}/", "$ID", "$NUMBER", "$LETTER", "$DIGIT"]
-RAND_LITERALS = ['"if"', '"else"', '"ab"', '"a"', '"b"', '"abc"', '"0"', '"00"', '"xy"', '"y"', '"aa"', '"aaa"', '"+"', '"a\\"b"']
+RAND_LITERALS = ['"if"', '"else"', '"ab"', '"a"', '"b"', '"abc"', '"0"', '"00"', '"xy"', '"y"', '"aa"', '"aaa"', '"+"', '"a\\"b"',
+                 # escapes at the edges of the literal: a leading / trailing escaped quote, a trailing escaped backslash
+                 '"\\""', '"a\\""', '"\\"a"', '"\\\\"', '"a\\\\"']
 
 
 def spec_of_defs(defs, named=False):
@@ -255,7 +261,7 @@ def check(tier):
     sets = sets + with_lits
     res = C.hook_map([{"op": "spec_dfa", "text": t} for t in texts], timeout_each=30)
     insts, meta, dist = [], [], {"accepted": 0, "conflict": 0, "spec_rejected": 0, "nul_set_skipped": 0, "slow": 0}
-    other_errors = []
+    other_errors, value_bad = [], []
     for s, t, r in zip(sets, texts, res):
         if r.get("outcome") == "slow":
             dist["slow"] += 1
@@ -264,6 +270,14 @@ def check(tier):
             dist["spec_rejected"] += 1
             continue
         defs = [(d[0], d[1], bool(d[2])) for d in r["definitions"]]
+        # the definitions the scanner is built from must carry the text as WRITTEN (between the quotes / slashes, escapes untouched):
+        # the instance below is judged against what emerge recorded, so a value garbled on the way would go unnoticed otherwise
+        written = sorted((d[1:-1], not d.startswith('"')) for d in s if d[0] in '"/')       # predefined names expand (C07)
+        recorded = sorted((v, isre) for _, v, isre in defs)
+        lits_ok = sorted(w for w in written if not w[1]) == sorted(x for x in recorded if not x[1])
+        pats_ok = all(w in recorded for w in written if w[1])
+        if not (lits_ok and pats_ok):
+            value_bad.append((s, t, {"written": written, "recorded": recorded}))
         if "dfa_error" in r:
             if "conflicting definitions" not in r["dfa_error"]:
                 if "invalid regular expression" in r["dfa_error"]:
@@ -311,6 +325,21 @@ def check(tier):
     # NUL-set patterns (known finding D3 of C02) make the per-definition expression differ from the documented one, but the
     # instance check uses the code-faithful expression, so they are certified like the others.
     rep.obligation("certified instances: %d scanner automata / conflict verdicts" % len(insts), not bad)
+    rep.obligation("the definitions the scanner is built from carry the strings and patterns as written", not value_bad)
+    for s_, t_, d_ in value_bad[:3]:
+        lit = next((w for w in d_["written"] if w not in d_["recorded"] and not w[1]), None)
+        payload = {"definitions": s_, "input_text": t_, "difference": d_,
+                   "why": "a definition's value is not the text written between the quotes / slashes"}
+        if lit is not None:
+            cps, un, k = C.codepoints(lit[0]), [], 0
+            while k < len(cps):
+                if cps[k] == 92 and k + 1 < len(cps):
+                    k += 1
+                un.append(cps[k])
+                k += 1
+            payload["string_codepoints"] = un
+            payload["note"] = "the characters of the written literal: the scanner must accept exactly this text for it"
+        rep.failure("definition-value", {"definition-value"}, payload)
     rep.obligation("a scanner is built whenever the patterns are valid and no conflict is reported", not other_errors)
     for s_, t_, e_ in other_errors[:3]:
         rep.failure("scanner-error", {"scanner-error"}, {"definitions": s_, "input_text": t_, "reported": e_[:400],
